@@ -714,3 +714,69 @@ Theorem C02_locked_step_keeps_the_section_invariant :
   w' = lop_world w a o t' r /\ sect c hash w' a t' m' /\ lim_same t t' /\ lop_spec c t m o r t' m'.
 Proof. exact locked_step_in_section. Qed.
 Print Assumptions C02_locked_step_keeps_the_section_invariant.
+
+(* ---- the test oracle is tied to the specification of the refinement theorem (SpecSound.v): the executable acceptor Spec.judge_op - the judge of every output of the real library - accepts an output of a normal-mode operation exactly when it is the output op_spec prescribes (soundness and completeness), and accepts the model's own outputs ---- *)
+From LC Require Import Spec LazyRefine SpecSound.
+Theorem C02_acceptor_sound :
+  forall (c : config) (fapply : fnk -> Z -> bool -> Z * bool) (spb_ : N) (tb : table) 
+  (s : sst) (a : nat) (t : stab) (m : amap) (o : op) (r : out) (pre post : obs)
+  (s' : sst),
+  normal_op o = true ->
+  spb c = spb_ ->
+  obs_pre tb pre ->
+  get_st s a = Some t ->
+  st_moved t = false ->
+  srep (st_m t) m ->
+  is_exn r EUnmodelled = false ->
+  judge_op fapply spb_ s a o r pre post = (s', []) ->
+  exists m' : amap, post_ok s' a t m' /\ op_spec c fapply tb m o (norm_out r) m'.
+Proof. exact judge_sound. Qed.
+Print Assumptions C02_acceptor_sound.
+
+Theorem C02_acceptor_complete :
+  forall (c : config) (fapply : fnk -> Z -> bool -> Z * bool) (spb_ : N) (tb : table) 
+  (s : sst) (a : nat) (t : stab) (m : amap) (o : op) (r : out) (m' : amap)
+  (pre post : obs),
+  normal_op o = true ->
+  spb c = spb_ ->
+  get_st s a = Some t ->
+  st_moved t = false ->
+  srep (st_m t) m ->
+  op_spec c fapply tb m o (norm_out r) m' ->
+  obs_consistent spb_ tb o r pre post ->
+  exists s' : sst, judge_op fapply spb_ s a o r pre post = (s', []) /\ post_ok s' a t m'.
+Proof. exact judge_complete. Qed.
+Print Assumptions C02_acceptor_complete.
+
+Theorem C02_acceptor_accepts_the_model :
+  forall (c : config) (hash : N -> N),
+  cfg_ok c ->
+  forall (fapply : fnk -> Z -> bool -> Z * bool) (spb_ : N) (w : world) (a : nat)
+  (sl : tslot) (o : op) (w' : world) (r : out) (m : amap) (s : sst) (ts : stab)
+  (pre post : obs),
+  spb c = spb_ ->
+  nothrow c = true ->
+  active sl = false ->
+  normal_op o = true ->
+  lgood c hash (tb sl) ->
+  rep c (tb sl) m ->
+  op_pre c (tb sl) o ->
+  step_some c hash fapply w a sl o = (w', r) ->
+  get_st s a = Some ts ->
+  st_moved ts = false ->
+  srep (st_m ts) m ->
+  obs_consistent spb_ (tb sl) o r pre post ->
+  lesc c hash (tb sl) \/
+  (exists (t' : table) (m' : amap) (s' : sst),
+  w' = put_t w a sl t' /\
+  lgood c hash t' /\
+  lim_same (tb sl) t' /\
+  rep c t' m' /\ judge_op fapply spb_ s a o r pre post = (s', []) /\ post_ok s' a ts m').
+Proof. exact model_accepted. Qed.
+Print Assumptions C02_acceptor_accepts_the_model.
+
+Theorem C02_acceptor_statistics :
+  forall (spb_ : N) (s : sst) (posts : list (option obs)),
+  judge_stats spb_ s posts = [] <-> Forall (stat_entry_ok spb_) (combine (s_tabs s) posts).
+Proof. exact judge_stats_nil. Qed.
+Print Assumptions C02_acceptor_statistics.
